@@ -614,6 +614,11 @@ pub async fn tamper_and_probe(w: &World, line: &str, out: &mut Outcome, model: O
     for loc in w.truth.keys() {
         let _ = warm.head(&Path::from(loc.as_str())).await;
     }
+    // a second pre-warmed instance, kept untouched for the copy / rename probe below
+    let warm2 = w.cold();
+    for loc in w.truth.keys() {
+        let _ = warm2.head(&Path::from(loc.as_str())).await;
+    }
     let undo = match apply(w, &toks).await {
         Ok(u) => u,
         Err(_) => {
@@ -645,6 +650,23 @@ pub async fn tamper_and_probe(w: &World, line: &str, out: &mut Outcome, model: O
     let cold = w.cold();
     probe(w, &cold, "cold", line, out, rollback).await;
     probe(w, &warm, "warm", line, out, rollback).await;
+    // copy / rename as read paths: from every key the modification touched, through a warm and a cold
+    // instance (the four flavours rotate with the tamper), then all read paths of the target
+    let touched: Vec<String> = w.truth.iter().filter(|(loc, t)| undo.iter().any(|(p, _)| p == &format!("meta/{loc}") || p == &t.payload_path || p.starts_with(&format!("gen/{loc}/")) || p == &format!("data/{loc}"))).map(|(loc, _)| loc.clone()).collect();
+    if !touched.is_empty() && !toks[0].starts_with("forge-legacy-phantom") {
+        let rot = line.bytes().fold(0usize, |h, b| h.wrapping_mul(31).wrapping_add(b as usize));
+        let want: Vec<&crate::world::Hist> = rollback.into_iter().collect();
+        for (ki, from) in touched.iter().enumerate() {
+            let legacy_through = !w.strict
+                && current(w, &format!("meta/{from}")).await.and_then(|b| metadoc::decode(&b).ok()).is_some_and(|d| d.an.is_none() && d.at.is_none() && d.av.is_none() && d.g.is_none());
+            let want_k: Vec<&crate::world::Hist> = want.iter().copied().filter(|h| &h.loc == from).collect();
+            let op_w = XOp::ALL[(rot + ki) % 4];
+            let op_c = XOp::ALL[(rot + ki + 1) % 4];
+            launder_probe(w, &warm2, "warm", op_w, from, "zz-x/w", toks[0], line, &want_k, legacy_through, out).await;
+            let cold2 = w.cold();
+            launder_probe(w, &cold2, "cold", op_c, from, "zz-x/c", toks[0], line, &want_k, legacy_through, out).await;
+        }
+    }
     restore(w, undo).await;
     true
 }
@@ -764,6 +786,23 @@ pub async fn stale_repoint(w: &World, line: &str, out: &mut Outcome) -> bool {
     } else if let Some(j) = src.strip_prefix("hmeta:") {
         let Some(h) = j.parse::<usize>().ok().and_then(|j| w.history.get(j)) else { return false };
         (h.meta_bytes.clone(), h.payload_bytes.clone(), (h.loc == *k).then(|| h.clone()))
+    } else if *src == "own-prefix" {
+        // a self-consistent shortened copy of k's own document: last chunk and its tag dropped, size cut to
+        // the chunk boundary, pointing at a planted generation that holds the matching ciphertext prefix
+        let (Some(d), Some(p)) = (own_meta.clone(), current(w, &t.payload_path).await) else { return false };
+        let c = w.chunk;
+        let n = t.size.div_ceil(c);
+        if n < 2 {
+            out.hit("tamper:not-applicable");
+            return false;
+        }
+        let cut = (n - 1) * c;
+        let Some(Value::Array(mut tags)) = metadoc::get_field(&d, "t") else { return false };
+        tags.pop();
+        let Ok(d) = metadoc::set_field(&d, "t", Value::Array(tags)) else { return false };
+        let Ok(d) = metadoc::set_field(&d, "s", Value::Integer(cut.into())) else { return false };
+        let Ok(d) = metadoc::set_field(&d, "g", Value::Text("0000018bcfe56800-0badf00d".into())) else { return false };
+        (d, p[..cut as usize].to_vec(), None)
     } else if *src == "own-short" || *src == "own-stripped" {
         let (Some(d), Some(p)) = (own_meta.clone(), current(w, &t.payload_path).await) else { return false };
         if t.size == 0 {
@@ -806,6 +845,17 @@ pub async fn stale_repoint(w: &World, line: &str, out: &mut Outcome) -> bool {
             let _ = get_collect(&s, k, GetOptions::new()).await;
         }
         warm.push(s);
+    }
+    // … and one per copy / rename flavour (the operation reads the SOURCE's document on the same retry path)
+    let mut warm_x: Vec<Store> = Vec::new();
+    for i in 0..XOp::ALL.len() {
+        let s = w.cold();
+        if i % 2 == 0 {
+            let _ = s.head(&Path::from(*k)).await;
+        } else {
+            let _ = get_collect(&s, k, GetOptions::new()).await;
+        }
+        warm_x.push(s);
     }
     // what each path answers before the modification (a plan error on the cached document never reaches
     // the payload, hence never the retry)
@@ -850,6 +900,12 @@ pub async fn stale_repoint(w: &World, line: &str, out: &mut Outcome) -> bool {
         if &warm_sig != expect {
             out.disagree(&format!("warm read after a forced re-resolve: {} on `{k}` after `{line}` (before the modification: {})", p.name(), base[i]), &format!("{expect} (= {})", if base_failed { "the plan error on the cached document" } else { "a cold read" }), &warm_sig);
         }
+    }
+    // copy / rename FROM the key whose pointer went stale, by a warm and by a cold instance; then the target
+    for (i, op) in XOp::ALL.iter().enumerate() {
+        launder_probe(w, &warm_x[i], "warm", *op, k, &format!("zz-x/w{i}"), "stale-repoint", line, &want, through_legacy, out).await;
+        let cold = w.cold();
+        launder_probe(w, &cold, "cold", *op, k, &format!("zz-x/c{i}"), "stale-repoint", line, &want, through_legacy, out).await;
     }
     restore(w, undo).await;
     true
@@ -947,4 +1003,125 @@ pub async fn aligned_cut(w: &World, line: &str, out: &mut Outcome, mut model: Op
     }
     restore(w, undo).await;
     true
+}
+
+
+// ---------------------------------------------------------------------------------------------------
+// copy / rename as a read path: the store reads the SOURCE's document and re-seals it for the target.
+// Whatever ends up readable under the target must be the source's original content.
+// ---------------------------------------------------------------------------------------------------
+
+#[derive(Clone, Copy, Debug, PartialEq)]
+pub enum XOp {
+    Copy,
+    CopyIfNotExists,
+    Rename,
+    RenameIfNotExists,
+}
+
+impl XOp {
+    pub const ALL: [XOp; 4] = [XOp::Copy, XOp::CopyIfNotExists, XOp::Rename, XOp::RenameIfNotExists];
+    pub fn name(&self) -> &'static str {
+        match self {
+            XOp::Copy => "copy",
+            XOp::CopyIfNotExists => "copy_if_not_exists",
+            XOp::Rename => "rename",
+            XOp::RenameIfNotExists => "rename_if_not_exists",
+        }
+    }
+    pub fn is_rename(&self) -> bool {
+        matches!(self, XOp::Rename | XOp::RenameIfNotExists)
+    }
+    pub async fn run(&self, store: &Store, from: &str, to: &str) -> Result<()> {
+        let (f, t) = (Path::from(from), Path::from(to));
+        match self {
+            XOp::Copy => store.copy(&f, &t).await,
+            XOp::CopyIfNotExists => store.copy_if_not_exists(&f, &t).await,
+            XOp::Rename => store.rename(&f, &t).await,
+            XOp::RenameIfNotExists => store.rename_if_not_exists(&f, &t).await,
+        }
+    }
+}
+
+async fn backend_keys_with_prefix(w: &World, prefix: &str) -> Vec<String> {
+    let metas: Vec<ObjectMeta> = w.mem.list(Some(&Path::from(prefix))).try_collect().await.unwrap_or_default();
+    metas.into_iter().map(|m| m.location.to_string()).collect()
+}
+
+/// `op from -> to` through `actor` on the current (tampered) backend, then every read path of the TARGET
+/// through `actor` and through a cold instance: what is readable under `to` must be exactly the content
+/// written under `from` (or an earlier commit of `from` in `want`) — or the operation / the reads fail.
+/// The target is removed again and whatever a rename deleted is put back.
+#[allow(clippy::too_many_arguments)]
+pub async fn launder_probe(w: &World, actor: &Store, temp: &str, op: XOp, from: &str, to: &str, kind: &str, line: &str, want: &[&crate::world::Hist], through_legacy: bool, out: &mut Outcome) {
+    let Some(src) = w.truth.get(from).cloned() else { return };
+    // what a rename may delete: the commit point and every payload object of the source
+    let mut saved: Vec<(String, Vec<u8>)> = Vec::new();
+    if op.is_rename() {
+        let mut keys = vec![format!("meta/{from}"), format!("data/{from}")];
+        keys.extend(backend_keys_with_prefix(w, &format!("gen/{from}")).await);
+        for k in keys {
+            if let Some(b) = current(w, &k).await {
+                saved.push((k, b));
+            }
+        }
+    }
+    let res = op.run(actor, from, to).await;
+    out.evals += 1;
+    match &res {
+        Err(e) => out.hit(&format!("oracle:{kind}:{}:{}", op.name(), classify(e))),
+        Ok(()) => {
+            out.hit(&format!("oracle:{kind}:{}:done", op.name()));
+            // candidates for the target: the source's content (size/plain); e_tag and time are new by design
+            let mut plains: Vec<&[u8]> = vec![&src.plain];
+            for h in want {
+                plains.push(&h.plain);
+            }
+            let cold = w.cold();
+            for (rtemp, reader) in [(temp, actor), ("cold", &cold)] {
+                for p in read_paths(src.size, w.chunk) {
+                    let (sig, ok) = match &p {
+                        ReadPath::Head => match reader.head(&Path::from(to)).await {
+                            Err(e) => (classify(&e).to_string(), true),
+                            Ok(m) => (format!("ok {}", m.size), plains.iter().any(|pl| pl.len() as u64 == m.size)),
+                        },
+                        _ => {
+                            // judge against each candidate plaintext (exact bytes, exact lengths)
+                            let mut verdict = (String::new(), false);
+                            for (ci, pl) in plains.iter().enumerate() {
+                                let t = crate::world::Truth { plain: pl.to_vec(), size: pl.len() as u64, e_tag: None, last_modified_ms: 0, payload_path: String::new(), legacy: true };
+                                if ci > 0 && verdict.1 {
+                                    break;
+                                }
+                                verdict = read_exact(reader, to, &p, &[], Some(&t)).await;
+                            }
+                            verdict
+                        }
+                    };
+                    out.evals += 1;
+                    if !ok {
+                        let key = if through_legacy { "compat-legacy-forgery".to_string() } else { format!("{kind}:{}-target:{}", if op.is_rename() { "rename" } else { "copy" }, p.key()) };
+                        out.fail(Failure::new(
+                            &key,
+                            &format!("[{} by a {temp} instance, target read by a {rtemp} instance] after `{line}`, {}(`{from}` -> `{to}`) succeeded and {} on the TARGET returned content that was never written under `{from}` (strict={})", op.name(), op.name(), p.name(), w.strict),
+                            Some(line),
+                            "the operation or the read fails, or the target holds exactly the source's original bytes",
+                            &sig,
+                        ));
+                    }
+                }
+            }
+        }
+    }
+    // remove the target again, put back what a rename removed
+    let mut gone = vec![format!("meta/{to}"), format!("data/{to}")];
+    gone.extend(backend_keys_with_prefix(w, &format!("gen/{to}")).await);
+    for k in gone {
+        w.raw_delete(&k).await;
+    }
+    for (k, b) in saved {
+        if current(w, &k).await.as_ref() != Some(&b) {
+            w.raw_put(&k, &b).await;
+        }
+    }
 }
